@@ -151,6 +151,12 @@ def main(tier):
         for r in pool.imap(_task, tasks):
             if 'harness_error' in r:
                 raise common.HarnessError(r['harness_error'])
+            if 'driver_died' in r:
+                e = r['driver_died']
+                prior = PRIORS[r['task'][1]][0]
+                run.violation('C14.died/prior-state', 'building the prior state %s (registrations and loads of VALID files) ended with %s: %s' % (prior, e.get('end'), (e.get('stderr') or '').strip().splitlines()[:2]),
+                              {'engine': 'conf', 'prior': r['task'][1], 'input_hex': '', 'detail': e}, dedup='prior-died|' + prior)
+                continue
             s = r['summary']
             for k in tot:
                 tot[k] += s[k]
